@@ -464,10 +464,10 @@ fn parse_args() -> Cfg {
         c.shards = if c.thorough { 12 } else { 8 };
     }
     if c.runs == 0 {
-        c.runs = if c.thorough { 170 } else { 10 };
+        c.runs = if c.thorough { 300 } else { 10 };
     }
     if c.budget_s == 0 {
-        c.budget_s = if c.thorough { 540 } else { 45 };
+        c.budget_s = if c.thorough { 560 } else { 45 };
     }
     c
 }
